@@ -8,7 +8,7 @@ search:         after EVERY step of every history, every version of every commit
 """
 import hashlib
 
-from vplib import absinv, common, histcheck
+from vplib import c01known, absinv, common, histcheck
 
 
 def hook(run, st):
@@ -54,4 +54,7 @@ def run(ctx):
     ctx.assumptions.append("digest injectivity (SHA-256/512 collision freedom): equal digests are treated as equal bytes")
     return histcheck.run_history_check(
         ctx, proof, hook, n, length,
+        # commits refused AFTER their de-duplication step (no object root; the version directory exists), then one of the
+        # two names of the shared content is removed / overwritten and the commit repeated: both names must read back
+        scripted=c01known.scenarios() + c01known.leftover_version_scenarios(),
         rule="adaptive random histories; after every step all versions of all committed objects are re-read (listing + every file, incl. empty content, 768-byte binary content, identical content under several names, content re-added after deletion); distinct = distinct (operation, arguments, result class)")
